@@ -87,15 +87,15 @@ def build_defs(body, mir):
         if m:
             defs[lhs] = (m.group(1).lower(), parse_operand(m.group(2), mir), parse_operand(m.group(3), mir))
             continue
-        m = re.match(r"^std::f64::<impl f64>::(round|trunc|floor|ceil|round_ties_even)\((.*)\)$", rhs)
+        m = re.match(r"^(?:std|core)::f64::<impl f64>::(round|trunc|floor|ceil|round_ties_even)\((.*)\)$", rhs)
         if m:
             defs[lhs] = (m.group(1), parse_operand(m.group(2), mir))
             continue
-        m = re.match(r"^std::f64::<impl f64>::clamp\((.*), (.*), (.*)\)$", rhs)
+        m = re.match(r"^(?:std|core)::f64::<impl f64>::clamp\((.*), (.*), (.*)\)$", rhs)
         if m:
             defs[lhs] = ("clamp", parse_operand(m.group(1), mir), parse_operand(m.group(2), mir), parse_operand(m.group(3), mir))
             continue
-        m = re.match(r"^std::f64::<impl f64>::(min|max)\((.*), (.*)\)$", rhs)
+        m = re.match(r"^(?:std|core)::f64::<impl f64>::(min|max)\((.*), (.*)\)$", rhs)
         if m:
             defs[lhs] = (m.group(1), parse_operand(m.group(2), mir), parse_operand(m.group(3), mir))
             continue
